@@ -17,8 +17,13 @@
     `reachable_val`), so values reached along different histories that denote the same integer
     are identical (`history_biguint_indistinguishable`, `history_bigint_indistinguishable`).
 
-  The operation list of the history theorem is `uOps` / `iOps` of NB.Model.Core (today: `+=`, `-=`,
-  `set_zero`, `set_one`, `clone_from`, `assign_from_slice` for both types and negation for BigInt).
+  The operation list of the history theorem is `uOps` / `iOps` of NB.Model.Core: for both types
+  `+=`, `-=`, `*=` (register operand and the u32/u64/u128 — BigInt: u128/i128 — scalar forms),
+  `/=`, `%=` (a zero divisor is a documented failure: not executed), `<<=`, `>>=` (usize amounts),
+  `&=`, `|=`, `^=`, `set_bit`, `set_zero`, `set_one`, `clone_from`, `assign_from_slice`, and negation
+  for BigInt.  The soundness lemmas of `* / % << >> & | ^ set_bit` (NB.Lemmas.Core) rest on the
+  operation theorems of NB.Props.C02 / C03 / C07; the spec machine's bit operations on `Int` are
+  Mathlib's `Int.land/lor/xor/ldiff` (`intLand_eq` …).
   Adding an operation = one `…Op.Sound` lemma + one entry in the tuples of `uOps_sound` / `iOps_sound`.
   std's hasher is not modelled: `hashInput` is what `Hash::hash` feeds to it.
 -/
@@ -183,8 +188,8 @@ theorem bigint_hash_iff {x y : BigInt} (hx : x.Canon) (hy : y.Canon) :
 theorem nosign_iff_zero {x : BigInt} (hx : x.Canon) : x.sign = .nosign ↔ x.val = 0 :=
   (bigint_canon_sign hx).2.1
 
-theorem bigint_isZero_iff {x : BigInt} (hx : x.Canon) : BigInt.isZero x = true ↔ x.val = 0 := by
-  unfold BigInt.isZero; rw [beq_iff_eq]; exact nosign_iff_zero hx
+theorem core_bigint_isZero_iff {x : BigInt} (hx : x.Canon) : Core.BigInt.isZero x = true ↔ x.val = 0 := by
+  unfold Core.BigInt.isZero; rw [beq_iff_eq]; exact nosign_iff_zero hx
 
 /-! ## constructors: arbitrary input → canonical representation of the denoted value -/
 
@@ -278,7 +283,9 @@ theorem uAsgOp_sound : uAsgOp.Sound := by
 theorem uOps_sound : ∀ o ∈ uOps, o.Sound := by
   unfold uOps
   simp only [List.forall_mem_cons, List.not_mem_nil, false_imp_iff, implies_true, and_true]
-  exact ⟨uAddOp_sound, uSubOp_sound, uZeroOp_sound, uOneOp_sound, uCloneOp_sound, uAsgOp_sound⟩
+  exact ⟨uAddOp_sound, uSubOp_sound, uZeroOp_sound, uOneOp_sound, uCloneOp_sound, uAsgOp_sound,
+    uMulOp_sound, uMul32Op_sound, uMul64Op_sound, uMul128Op_sound, uDivOp_sound, uRemOp_sound,
+    uShlOp_sound, uShrOp_sound, uAndOp_sound, uOrOp_sound, uXorOp_sound, uSetBitOp_sound⟩
 
 theorem iAddOp_sound : iAddOp.Sound := by
   intro P _ a b imm ha hb _
@@ -323,7 +330,9 @@ theorem iNegOp_sound : iNegOp.Sound := by
 theorem iOps_sound : ∀ o ∈ iOps, o.Sound := by
   unfold iOps
   simp only [List.forall_mem_cons, List.not_mem_nil, false_imp_iff, implies_true, and_true]
-  exact ⟨iAddOp_sound, iSubOp_sound, iZeroOp_sound, iOneOp_sound, iCloneOp_sound, iAsgOp_sound, iNegOp_sound⟩
+  exact ⟨iAddOp_sound, iSubOp_sound, iZeroOp_sound, iOneOp_sound, iCloneOp_sound, iAsgOp_sound, iNegOp_sound,
+    iMulOp_sound, iMul128Op_sound, iMulI128Op_sound, iDivOp_sound, iRemOp_sound,
+    iShlOp_sound, iShrOp_sound, iAndOp_sound, iOrOp_sound, iXorOp_sound, iSetBitOp_sound⟩
 
 /-- proof obligation over the generated parameters (re-elaborated on every run) -/
 theorem gen_params_valid_ops : OpsValid NB.Gen.P := by decide
@@ -499,6 +508,13 @@ example : (Regs.run NB.Gen.P
       [.u "add" 0 1 [], .u "sub" 0 1 [], .u "sub" 2 0 [], .i "add" 0 1 [], .i "neg" 0 0 [], .i "asg" 1 1 [1, 7, 0, 0]]
       ⟨[[B - 1, B - 1], [1], [5]], [⟨.minus, [3]⟩, ⟨.plus, [3]⟩]⟩)
     = ⟨[[B - 1, B - 1], [1], [5]], [⟨.nosign, []⟩, ⟨.nosign, []⟩]⟩ := by decide
+-- the further operations: `-(2^64)` with bit 0 set loses its top digit; zero times a two-digit scalar
+-- is the empty vector; `>>=` / `%=` down to zero; `/=` shortening; a zero divisor leaves the register alone
+example : (Regs.run NB.Gen.P
+      [.i "setbit" 0 0 [0, 1], .u "mul128" 0 0 [0, 1], .u "shr" 1 1 [64], .u "div" 2 0 [], .u "rem" 2 2 [],
+       .i "and" 1 0 [], .i "div" 1 1 []]
+      ⟨[[], [7], [5]], [⟨.minus, [0, 1]⟩, ⟨.plus, [0, 0, 4]⟩]⟩)
+    = ⟨[[], [], []], [⟨.minus, [B - 1]⟩, ⟨.plus, [1]⟩]⟩ := by decide
 example : Regs.Canon ⟨[[B - 1, B - 1], [1], [5]], [⟨.minus, [3]⟩, ⟨.plus, [3]⟩]⟩ := by
   constructor <;> decide
 
